@@ -202,7 +202,7 @@ func genCase(t *rapid.T) Case {
 		return rapid.SampledFrom([]int{-1, -2, -3, len(md.slots), len(md.slots) + 7}).Draw(t, "unkh")
 	}
 	// per-case bias so that both many-readers and writer-centred sequences are frequent
-	bias := rapid.SampledFrom([]string{"mixed", "mixed", "readers", "writer"}).Draw(t, "bias")
+	bias := rapid.SampledFrom([]string{"mixed", "readers", "writer"}).Draw(t, "bias")
 	for i := 0; i < n; i++ {
 		w, nr := md.writer(), md.readers()
 		open := md.openSlots()
@@ -210,9 +210,15 @@ func genCase(t *rapid.T) Case {
 		free := w < 0 && nr == 0
 		var ch []weighted
 		add := func(op string, wt int) { ch = append(ch, weighted{op, wt}) }
-		add("get", 3)
-		add("put", 5)
-		add("del", 2)
+		if len(open) > 0 { // leave room for requests on the handles
+			add("get", 2)
+			add("put", 3)
+			add("del", 1)
+		} else {
+			add("get", 3)
+			add("put", 5)
+			add("del", 2)
+		}
 		add("nodeinfo", 1)
 		add("badsize", 3)
 		add("badhandle", 2)
@@ -226,11 +232,11 @@ func genCase(t *rapid.T) Case {
 			if nr < 3 {
 				switch {
 				case bias == "readers":
-					add("begin_ro", 9)
+					add("begin_ro", 12)
 				case bias == "writer":
 					add("begin_ro", 1)
 				default:
-					add("begin_ro", 4)
+					add("begin_ro", 6)
 				}
 			}
 		}
@@ -239,9 +245,9 @@ func genCase(t *rapid.T) Case {
 			case "readers":
 				add("begin_rw", 1)
 			case "writer":
-				add("begin_rw", 9)
+				add("begin_rw", 12)
 			default:
-				add("begin_rw", 4)
+				add("begin_rw", 6)
 			}
 			add("batch", 3)
 		}
@@ -256,7 +262,8 @@ func genCase(t *rapid.T) Case {
 			} else {
 				add("txwrite_ro", 1)
 				if nr >= 2 {
-					add("txget", 4) // alternate between the open handles
+					add("txget", 6) // alternate between the open handles
+					add("txscan", 2)
 					add("commit", 1)
 				} else {
 					add("commit", 2)
